@@ -202,7 +202,8 @@ def check_alphas(rep, proj):
 
         def Legacy(ev, theory=None, operator=None, **kw):
             heavy = S.record("heavy", masses=[(A.sym("mc", True), None), (A.sym("mb", True), None), (A.sym("mt", True), None)],
-                             matching_ratios=[A.sym("kcThr", True), A.sym("kbThr", True), A.sym("ktThr", True)], masses_scheme="POLE")
+                             matching_ratios=[A.sym("kcThr", True), A.sym("kbThr", True), A.sym("ktThr", True)],
+                             squared_ratios=[A.sym(k, True) * A.sym(k, True) for k in ("kcThr", "kbThr", "ktThr")], masses_scheme="POLE")
             nt = S.record("new_theory", couplings=S.record("CARD_COUPLINGS"), order=S.record("CARD_ORDER"), heavy=heavy)
             built["legacy_theory"] = theory
             built["nt"] = nt
